@@ -1,6 +1,7 @@
 import CandidModel.Wire
 import CandidModel.Proofs.CoerceSound
 import CandidModel.Proofs.CoerceInhab
+import CandidModel.Proofs.DeCoerce
 /-
   C04 — Accepted subtyping means decoding at the supertype cannot fail.
   Mechanism lemmas about `Wire.coerce`, the μ-opt witness, and the soundness theorem on the specification side:
@@ -82,14 +83,14 @@ Reference types included (their check is the subtype checker, which never reject
 theorem coercion_of_a_subtype_value_never_fails (env : Env) (hg : GoodEnv env) (fuel : Nat) (w e : Ty) (v : Val) (n : Nat)
     (hw : goodTy env w = true) (he : goodTy env e = true) (hc : canon env n v w = true) (hs : Sub.Sub env w e) :
     Snd (coerce env true env fuel w e v) :=
-  coerce_sound env hg fuel w e v n hw he hc hs
+  coerce_sound env hg true fuel w e v n hw he hc hs
 
 /-- without the subtyping hypothesis the coercion of a canonical value still ends regularly: a value, a subtype
 failure (what an enclosing option turns into `null`), or an exhausted budget -/
 theorem coercion_ends_regularly (env : Env) (hg : GoodEnv env) (fuel : Nat) (w e : Ty) (v : Val) (n : Nat)
     (hw : goodTy env w = true) (he : goodTy env e = true) (hc : canon env n v w = true) :
     Reg (coerce env true env fuel w e v) :=
-  coerce_regular env hg fuel w e v n hw he hc
+  coerce_regular env hg true fuel w e v n hw he hc
 
 /-- with what the checker says (C05): whenever the subtype check accepts `w <: e`, the coercion of every canonical
 value of `w` to `e` cannot fail -/
@@ -98,7 +99,7 @@ theorem accepted_by_the_checker_means_coercion_cannot_fail (env : Env) (hg : Goo
     (hacc : Sub.subAlg env k [] w e = .yes g') : Snd (coerce env true env fuel w e v) := by
   have hsw : Sub.safeTy env w = true := by simp only [goodTy, Bool.and_eq_true] at hw; exact hw.1
   have hse : Sub.safeTy env e = true := by simp only [goodTy, Bool.and_eq_true] at he; exact he.1
-  exact coerce_sound env hg fuel w e v n hw he hc
+  exact coerce_sound env hg true fuel w e v n hw he hc
     (Sub.subAlg_sound_history env hg.1 k [] g' w e hsw hse (Sub.justified_nil env) hacc).1
 
 /-- **the second half of coercion soundness: whatever the coercion returns is a value of the expected type.**
@@ -125,5 +126,40 @@ example : coerce [] true [] 3 (.record (.cons (.id 0) (.prim .nat) .nil))
 example : canon [] 5 (.record [(.id 0, .nat 7)]) (.record (.cons (.id 0) (.prim .nat) .nil)) = true ∧
     goodTy [] (.record (.cons (.id 0) (.prim .int) (.cons (.id 1) (.opt (.prim .text)) .nil))) = true := by
   constructor <;> decide
+
+/-! ## the same on the decoder mirror -/
+
+open Candid.De in
+/-- **the decoder cannot fail on a value of a subtype** (mirror `De.deAny`, first-order types): for every good
+environment, every pair `w <: e` of the specification relation whose types meet the conditions of
+`Props.C02.decoding_a_wellformed_value_is_its_coercion`, every canonical value `v` of `w`, from the bytes the writer
+produces for `v` followed by anything, with nothing metered: given a budget `n` at which the specification's coercion
+finishes, the decoder — at every depth budget `m` — returns exactly the coerced value and leaves what followed, or is
+stopped by its depth budget.  It never reports a subtype failure, a malformed value or a panic. -/
+theorem decoding_a_subtype_value_never_fails (env : Env) (hg : GoodEnv env) (m n : Nat) (w e : Ty) (v : Val) (cf sf : Nat)
+    (bs r : Bytes) (s : St) (hgw : goodTy env w = true) (hge : goodTy env e = true)
+    (hc : canon env cf v w = true) (hs : serVal sf v = .ok bs) (hin : s.input = bs ++ r)
+    (hu : Unmetered s) (hw : OKW env w) (he : OKE env e) (hsm : Small s) (hsub : Sub.Sub env w e)
+    (hn : coerce env false env n w e v ≠ .err .limit) :
+    deAny env .idl m w e s = .err .limit ∨
+      ∃ v', coerce env false env n w e v = .ok v' ∧ deAny env .idl m w e s = .ok v' { s with input := r } := by
+  have hsnd := coerce_sound env hg false n w e v cf hgw hge hc hsub
+  cases hco : coerce env false env n w e v with
+  | ok v' =>
+    rcases typed_read env m n w e v cf sf bs r s hc hs hin hu hw he hsm with h | h | h
+    · rw [hco] at h; simp at h
+    · exact Or.inl h
+    · rw [hco] at h
+      cases hd : deAny env .idl m w e s with
+      | ok v'' s1 => rw [hd] at h; right; exact ⟨v', rfl, by rw [h.1, h.2]; rfl⟩
+      | sub _ _ => rw [hd] at h; exact absurd h (by simp)
+      | err _ => rw [hd] at h; exact absurd h (by simp)
+      | panic _ => rw [hd] at h; exact absurd h (by simp)
+  | err k =>
+    rw [hco] at hsnd hn
+    simp only [Snd] at hsnd
+    subst hsnd
+    exact absurd rfl hn
+  | panic p => rw [hco] at hsnd; exact absurd hsnd (by simp [Snd])
 
 end Candid.Props.C04
